@@ -48,6 +48,80 @@ let () =
         let cap = List.fold_left (fun acc h ->
           if String.length h > 4 && String.sub h 0 4 = "cap=" then n_of_string (String.sub h 4 (String.length h - 4)) else acc)
           (n_of_int 4) hdr in
+        if (match hdr with "e2e" :: _ -> true | _ -> false) then begin
+          (* end-to-end client program: the entries the session API puts into the log, in
+             order, through the session model and the client.Session model *)
+          let st = ref (acc_init (if cap = N0 then n_of_int 1 else cap)) in
+          let next_id = ref 1000 in
+          let sessions : (string, (csession * bool) ref) Hashtbl.t = Hashtbl.create 8 in
+          let outcome_str name = function
+            | OApplied (v, d) | OCached (v, d) -> Printf.sprintf "%s ok %s %s" name (string_of_n v) (hex_of_bytes d)
+            | ORejected -> name ^ " rejected"
+            | OIgnored -> name ^ " timeout"
+            | _ -> name ^ " ?" in
+          let propose name cs cmd =
+            let e = { e_client = cs.c_client; e_series = cs.c_series; e_responded = cs.c_responded; e_cmd = cmd } in
+            let (st', out) = acc_step !st e in
+            st := st'; outcome_str name out in
+          let k = ref (-1) in
+          List.iter (fun o ->
+            let w = split_ws o in
+            if w <> [] then begin
+              incr k;
+              let k = !k in
+              let live name = match Hashtbl.find_opt sessions name with
+                | Some r when not (snd !r) -> Some r | _ -> None in
+              match w with
+              | ["REG"; name] ->
+                let cid = n_of_int !next_id in
+                incr next_id;
+                let e = { e_client = cid; e_series = series_id_for_register; e_responded = N0; e_cmd = [] } in
+                let (st', out) = acc_step !st e in
+                st := st';
+                (match out, c_prepare_for_propose (c_new cid) with
+                 | ORegistered _, Some cs -> Hashtbl.replace sessions name (ref (cs, false)); Printf.printf "%s %d REG ok\n" id k
+                 | _ -> Printf.printf "%s %d REG fail\n" id k)
+              | [("P" | "STALE") as op; name; cmdhex] ->
+                let cmd = bytes_of_hex cmdhex in
+                (match live name with
+                 | Some r when cmd <> [] ->
+                   let (cs, _) = !r in
+                   if op = "P" then Printf.printf "%s %d %s\n" id k (propose "P" cs cmd)
+                   else if cs.c_responded = N0 then Printf.printf "%s %d STALE none\n" id k
+                   else begin
+                     let prev = fst (util_divmod (util_add cs.c_responded (n_of_string "18446744073709551615")) (n_of_string "18446744073709551616")) in
+                     ignore prev;
+                     let resp1 = snd (util_divmod (util_add cs.c_responded (n_of_string "18446744073709551615")) (n_of_string "18446744073709551616")) in
+                     let stale = { c_client = cs.c_client; c_series = cs.c_responded; c_responded = resp1 } in
+                     Printf.printf "%s %d %s\n" id k (propose "STALE" stale cmd)
+                   end
+                 | _ -> Printf.printf "%s %d %s invalid\n" id k op)
+              | ["P"; _] | ["STALE"; _] -> Printf.printf "%s %d %s invalid\n" id k (List.hd w)
+              | ["DONE"; name] ->
+                (match live name with
+                 | Some r ->
+                   (match c_proposal_completed (fst !r) with
+                    | Some cs' -> r := (cs', false); Printf.printf "%s %d DONE ok\n" id k
+                    | None -> Printf.printf "%s %d DONE panic\n" id k)
+                 | None -> Printf.printf "%s %d DONE invalid\n" id k)
+              | ["CLOSE"; name] ->
+                (match live name with
+                 | Some r ->
+                   let (cs, _) = !r in
+                   r := (cs, true);
+                   let e = { e_client = cs.c_client; e_series = series_id_for_unregister; e_responded = cs.c_responded; e_cmd = [] } in
+                   let (st', out) = acc_step !st e in
+                   st := st';
+                   Printf.printf "%s %d CLOSE %s\n" id k (match out with OUnregistered _ -> "ok" | _ -> "rejected")
+                 | None -> Printf.printf "%s %d CLOSE invalid\n" id k)
+              | ["READ"] -> Printf.printf "%s %d READ %s\n" id k (string_of_n !st.st_sm)
+              | ["GUARD"] -> Printf.printf "%s %d GUARD getsession=panic propose=panic noop=ok\n" id k
+              | [("HOST" | "SNAPSHOT" | "RESTARTHOST" | "XFER") as op; _] -> Printf.printf "%s %d %s ok\n" id k op
+              | x :: _ -> Printf.printf "%s %d ? %s\n" id k x
+              | [] -> ()
+            end) (split_ops body);
+          Printf.printf "%s end %s\n" id (string_of_n !st.st_sm)
+        end else
         if List.exists (fun h -> String.length h > 7 && String.sub h 0 7 = "client=") hdr then begin
           let get k = List.fold_left (fun acc h ->
             let kl = String.length k in
